@@ -69,9 +69,11 @@ def child(mode, name):
         for nm in ("neutron", "xray", "covalent_radius", "crystal_structure", "magnetic_ff", "K_alpha", "neutron_activation"):
             getattr(pt.elements.Fe, nm, None)
         pt.elements.Fe.xray.sftable
+    ns = dict(np=np, pt=pt, nsf=nsf, xsf=xsf, formula=formula, _activation=_activation, _decay=_decay, _fasta=_fasta)
+
     def once():
         try:
-            v = eval(CALCS[name])
+            v = eval(CALCS[name], ns)
             return repr(np.asarray(v, dtype=object).tolist() if not isinstance(v, (list, tuple, dict, float, int, str, type(None))) else v)
         except Exception as e:  # noqa
             return "raises %s: %s" % (type(e).__name__, str(e)[:120])
@@ -101,6 +103,10 @@ def main():
     with ThreadPoolExecutor(max_workers=8) as ex:
         first = list(ex.map(lambda n: run("first", n), names))
         after = list(ex.map(lambda n: run("after", n), names))
+    broken = [n for n, b in zip(names, after) if b.startswith("raises NameError") or b.startswith("child failed")]
+    if broken:
+        fails.append(dict(signature="C09:calculator-stream-broken", what="the calculator stream could not evaluate %d calculators, e.g. `%s`: %s"
+                          % (len(broken), broken[0], after[names.index(broken[0])][:200]), history=[], history_text=broken[:3], outcomes=[], calc=broken[0]))
     for n, a, b in zip(names, first, after):
         if a != b:
             fails.append(dict(signature="C09:calculator-as-first-touch", what="in a fresh interpreter, `%s` as the very first touch gives %s; after the "
